@@ -53,6 +53,9 @@ impl Pools {
     pub fn keys(&self) -> usize {
         self.by_key.len()
     }
+    pub fn key_names(&self) -> Vec<String> {
+        self.by_key.keys().cloned().collect()
+    }
 }
 
 pub fn digest_value(v: &Value) -> u64 {
